@@ -29,6 +29,23 @@ def generated_code(hint, conf):
     return code, dict(scope)
 
 
+_ALIAS: dict = {}
+
+
+def mentions_alias(hint, depth: int = 0) -> bool:
+    import typing as T
+    k = id(hint)
+    if depth == 0 and k in _ALIAS:
+        return _ALIAS[k]
+    r = isinstance(hint, T.TypeAliasType) or (depth < 12 and any(mentions_alias(a, depth + 1) for a in (
+        list(T.get_args(hint)) + [getattr(hint, '__bound__', None)] + list(getattr(hint, '__constraints__', ()) or ()))
+        if a is not None and not isinstance(a, (str, int, bytes, bool))))
+    if depth == 0:
+        _ALIAS[k] = r
+        _KEEP.append(hint)
+    return r
+
+
 def verdicts(obj, hint, conf, draw: int) -> dict:
     """Accept/reject of the five entry points for one forced draw; exceptions that are
     not violations are reported by class name."""
@@ -50,6 +67,10 @@ def verdicts(obj, hint, conf, draw: int) -> dict:
     run('is_bearable', lambda: is_bearable(obj, hint, conf=conf), ())
     run('die_if_unbearable', lambda: die_if_unbearable(obj, hint, conf=conf), BeartypeDoorHintViolation)
     run('typehint', lambda: TypeHint(hint).is_bearable(obj, conf=conf), ())
+    if out['typehint'] == 'exc:BeartypeDoorNonpepException' and mentions_alias(hint):
+        # PEP 695 aliases are documented as "currently unsupported by beartype.door.TypeHint": for hints that mention
+        # one, the object-oriented entry point is outside "supported hints" (the other four entry points are judged)
+        del out['typehint']
     fp, fr = decorated(hint, conf)
     if fp is not None:
         run('param', lambda: fp(obj), BeartypeCallHintViolation)
